@@ -601,3 +601,6 @@
 (declare-fun bi.val (math/big.Int) Int)
 (define-fun r_trunc ((r Real)) Int (ite (>= r 0.0) (to_int r) (- (to_int (- r)))))
 (define-fun r_ceil ((r Real)) Int (- (to_int (- r))))
+; length bounds recorded in a refinement object (0 / MaxInt when it records none)
+(define-fun rfn_len_lo ((w Any)) Int (ite ((_ is box<*cty.refinementCollection>) w) (cty.refinementCollection.minLen (rcoll_at (unbox<*cty.refinementCollection> w))) 0))
+(define-fun rfn_len_hi ((w Any)) Int (ite ((_ is box<*cty.refinementCollection>) w) (cty.refinementCollection.maxLen (rcoll_at (unbox<*cty.refinementCollection> w))) 9223372036854775807))
